@@ -967,6 +967,35 @@ def guard_fingerprint(f, bb):
     return f._fp_cache[bb]
 
 
+def call_fingerprints(P, fn, callee):
+    """sorted guard fingerprints (canonical) of every call of `callee` (path suffix) in function `fn` and its closures."""
+    out = []
+    for p_, g in P.funcs.items():
+        if p_ != fn and not p_.startswith(fn + "::{closure"):
+            continue
+        for bi, t in g.calls():
+            n = M.callee_name(t) or ""
+            if n == callee or n.endswith("::" + callee):
+                out.append(sorted(canon_guard(x) for x in guard_fingerprint(g, bi)))
+    return sorted(out)
+
+
+def relies_on_changed(P, deps):
+    """a residue row may name calls elsewhere that establish its precondition:
+    [{"fn": path, "callee": suffix, "guards": [[..], ..]}] -- the conditions under which those calls happen must be exactly
+    the ones recorded at review time (a call that became conditional no longer establishes anything)."""
+    problems = []
+    for d in deps:
+        if d["fn"] not in P.funcs:
+            problems.append("`%s` no longer exists" % d["fn"])
+            continue
+        now = call_fingerprints(P, d["fn"], d["callee"])
+        want = sorted(sorted(canon_guard(x) for x in g) for g in d.get("guards", []))
+        if now != want:
+            problems.append("`%s` called `%s` under %s when reviewed and calls it under %s now" % (d["fn"], d["callee"], want, now))
+    return problems
+
+
 def requires_ok(f, req):
     """a residue row names the guards it relies on (callee-name substrings); they must still be called in f."""
     names = _fn_calls(f)
@@ -1039,6 +1068,11 @@ def run(ctx, res, layers, floor_fns, floor_sites, extra_roots=(), label="PANIC-I
                 res.bad(label, k + " # guard-call-removed",
                         "reviewed site `%s`: the function makes fewer bounds/boundary/emptiness tests than when it was reviewed (%s); "
                         "the safety argument ('%s') must be re-examined" % (k, ", ".join(census_lost(f, row["census"])), row.get("reason", "")[:120]),
+                        s.loc(), {"row": row})
+            elif row.get("relies_on") and relies_on_changed(P, row["relies_on"]):
+                res.bad(label, k + " # establishing-call-changed",
+                        "reviewed site `%s` is safe only because other code establishes its precondition: %s; the safety argument "
+                        "('%s') must be re-examined" % (k, "; ".join(relies_on_changed(P, row["relies_on"])), row.get("reason", "")[:120]),
                         s.loc(), {"row": row})
             elif cg:
                 res.bad(label, k + " # caller-guard",
